@@ -80,6 +80,11 @@ func init() {
 	tensorContracts[T+".Range"] = contract{res: fresh(1)}
 	tensorContracts[T+".Ones"] = contract{res: fresh(1)}
 	tensorContracts[T+".Copy"] = contract{mutD: []int{0}, res: fresh(1)}
+	// Materialize(t) returns t itself unless t is a view (api_matop.go:123)
+	tensorContracts[T+".Materialize"] = contract{res: []resSpec{{kind: rAliasOrFresh, src: 0}}}
+	// ReturnTensor(t) wipes the access pattern, dtype and backing array of a *Dense and hands the object to
+	// the pool, which re-issues it (perf.go:78): a header and a data write on whatever storage t is
+	tensorContracts[T+".ReturnTensor"] = contract{mutH: []int{0}, mutD: []int{0}}
 
 	// methods (keyed by package + "#" + name; receiver = operand 0)
 	m := func(name string, c contract) { tensorContracts[T+"#"+name] = c }
